@@ -538,5 +538,73 @@ func c11(c *Ctx) {
 			}
 		}
 		c.Check(good && nRet >= 2, "R7", "propagation|Baggage.Extract|parse error ⇒ input context returned", at(px.M, fn.Pos()), "context untouched on failure", "a failed parse alters the context")
+		// Extract is the inverse of Inject: what it stores into the context is what the parser returned for this header, not that
+		// combined with whatever the context held before (members that were never in the header would appear, and the limits
+		// the parser enforced would no longer hold for the stored value)
+		{
+			nStore, bad := 0, ""
+			var badPos token.Pos
+			inspectNoLit(fn.Body(), func(n ast.Node) bool {
+				call, ok := n.(*ast.CallExpr)
+				if !ok || len(call.Args) != 2 {
+					return true
+				}
+				cf := callee(pinfo, call)
+				if cf == nil || cf.Name() != "ContextWithBaggage" {
+					return true
+				}
+				nStore++
+				arg := unparen(call.Args[1])
+				src := arg
+				if v := objOf(pinfo, arg); v != nil {
+					if d := g.LocalDef(v); d != nil {
+						src = unparen(d)
+					} else if td, has := g.tupleDefs()[v]; has && !assignedIn(pinfo, fn.Body(), v) {
+						src = td.call
+					} else {
+						// several definitions: is every one of them the parser's result?
+						n2, fromParse := 0, true
+						inspectNoLit(fn.Body(), func(m ast.Node) bool {
+							if as, ok := m.(*ast.AssignStmt); ok {
+								for i, l := range as.Lhs {
+									if sameVar(pinfo, l, v) {
+										n2++
+										var r ast.Expr
+										if len(as.Rhs) == 1 {
+											r = as.Rhs[0]
+										} else if i < len(as.Rhs) {
+											r = as.Rhs[i]
+										}
+										c2, isCall := unparen(r).(*ast.CallExpr)
+										if !isCall || callee(pinfo, c2) == nil || callee(pinfo, c2).Name() != "Parse" {
+											fromParse = false
+										}
+									}
+								}
+							}
+							return true
+						})
+						if n2 > 0 && fromParse {
+							return true
+						}
+						bad, badPos = "the stored baggage "+exprStr(arg)+" has a definition that is not the parser's result", call.Pos()
+						return true
+					}
+				}
+				c2, isCall := src.(*ast.CallExpr)
+				if !isCall || callee(pinfo, c2) == nil || callee(pinfo, c2).Name() != "Parse" {
+					bad, badPos = "the stored baggage is "+exprStr(src)+", not the result of baggage.Parse", call.Pos()
+				}
+				return true
+			})
+			if nStore > 0 {
+				pos := fn.Pos()
+				if bad != "" {
+					pos = badPos
+				}
+				c.Check(bad == "", "R7", "propagation|Baggage.Extract|the context receives exactly the parsed header", at(px.M, pos), "ContextWithBaggage(parent, <result of Parse>)",
+					"Inject followed by Extract is no longer the identity, and the stored baggage can exceed the limits the parser enforced: "+bad)
+			}
+		}
 	}
 }
